@@ -24,6 +24,12 @@ func Check(tree *parser.Tree, config *conf.Config) (reflect.Type, error) {
 
 	t := v.visit(tree.Node)
 
+	// A located error found in the expression comes before the complaint
+	// about the type of the (then unknown) result.
+	if v.err != nil {
+		return t, v.err.Bind(tree.Source)
+	}
+
 	if v.expect != reflect.Invalid {
 		switch v.expect {
 		case reflect.Int64, reflect.Float64:
@@ -35,10 +41,6 @@ func Check(tree *parser.Tree, config *conf.Config) (reflect.Type, error) {
 				return nil, fmt.Errorf("expected %v, but got %v", v.expect, t)
 			}
 		}
-	}
-
-	if v.err != nil {
-		return t, v.err.Bind(tree.Source)
 	}
 
 	return t, nil
